@@ -60,6 +60,13 @@ type loginPlan struct {
 	Twin         bool     `json:"twin,omitempty"`
 	TwinPassword string   `json:"twin_password_hex,omitempty"`
 	TwinRemotePw []string `json:"twin_remote_pw_hex,omitempty"`
+	// TwinAltKey: the twin's server presents a different RSA key of the same size (same host and server name).
+	TwinAltKey bool `json:"twin_alt_key,omitempty"`
+	altKey     bool
+	// Storm > 0 (C08): the same login is made Storm times in a row (each on a new connection, the server answering
+	// with the same script) and then once more against a server that answers with the valid script: that control
+	// login must succeed - what failed or odd logins leave behind in the process may not break a later one.
+	Storm int `json:"storm,omitempty"`
 }
 
 const (
@@ -292,6 +299,9 @@ func decorate(r *Rand, p *loginPlan) {
 func (p *loginPlan) keyPEM() ([]byte, *rsa.PrivateKey) {
 	bits := p.KeyBits
 	k := rsaKeys[bits]
+	if p.altKey {
+		k = rsaKeysAlt[bits]
+	}
 	blk, _ := pem.Decode([]byte(k.Priv))
 	priv, _ := x509.ParsePKCS1PrivateKey(blk.Bytes)
 	return []byte(k.PubPKCS1), priv
@@ -337,6 +347,9 @@ func (pk lPkg) encode(p *loginPlan) []byte {
 			key = append(append([]byte{}, pub...), []byte("trailing")...)
 		case "pkix":
 			key = []byte(rsaKeys[p.KeyBits].PubPKIX)
+			if p.altKey {
+				key = []byte(rsaKeysAlt[p.KeyBits].PubPKIX)
+			}
 		case "small":
 			key = []byte(rsaKeys[512].PubPKCS1)
 		case "whitespace":
@@ -410,6 +423,7 @@ type loginObs struct {
 	randLog    []simrt.RandDraw
 	cfgErr     string
 	twin       *loginObs
+	control    *loginObs
 }
 
 func runLogin(p *loginPlan, schedSeed uint64, replay []simrt.Choice, lenient, keepLog bool) (*loginObs, *simrt.Outcome, *TDSPeer) {
@@ -420,7 +434,7 @@ func runLogin(p *loginPlan, schedSeed uint64, replay []simrt.Choice, lenient, ke
 	}
 	s := simrt.New(cfg)
 	pr := NewTDSPeer(s)
-	wire := func(pr *TDSPeer) {
+	wire := func(pr *TDSPeer, p *loginPlan) {
 		pr.Async = p.Async
 		reply := func(items []lPkg, trunc int, cuts []int) {
 			eom := true
@@ -445,16 +459,30 @@ func runLogin(p *loginPlan, schedSeed uint64, replay []simrt.Choice, lenient, ke
 			case len(m.Body) > 0 && m.Body[0] == 0x71: // logout
 				pr.SendPackets(peer.Packetise(peer.Done(0, 0, 0), nil, peer.BufResponse, 0, true))
 			case m.Index == 0:
+				if f, _, err := parseLoginRecord(m.Body); p.TwinAltKey && err == nil && strings.HasPrefix(string(f["lusername"].value), "twin_") {
+					q := *p
+					q.altKey = true
+					p = &q
+				}
 				reply(p.Phase1, p.Trunc1, p.Cuts1)
 			case m.Index == 1 && p.Encrypted:
 				reply(p.Phase2, p.Trunc2, p.Cuts2)
 			}
 		}
 	}
-	wire(pr)
+	wire(pr, p)
+	nsub := 0
 	pr.NewSub = func(c *simrt.Conn) *TDSPeer {
 		sp := SubPeer(s, c)
-		wire(sp)
+		nsub++
+		if p.Storm > 0 && nsub == p.Storm {
+			q := *p
+			q.Phase1, q.Phase2 = loginBase(p.Encrypted)
+			q.Trunc1, q.Trunc2, q.Cuts1, q.Cuts2 = -1, -1, nil, nil
+			wire(sp, &q)
+		} else {
+			wire(sp, p)
+		}
 		return sp
 	}
 	s.Net.Setup = func(c *simrt.Conn) { c.ReadSizes = p.ReadSizes }
@@ -520,6 +548,14 @@ func runLogin(p *loginPlan, schedSeed uint64, replay []simrt.Choice, lenient, ke
 			tw = simrt.Spawn("twin", func() { client(twin, twinUser(p.User), string(unhex(p.TwinPassword)), p.TwinRemotePw) })
 		}
 		client(obs, p.User, string(unhex(p.Password)), p.RemotePw)
+		for k := 1; k < p.Storm; k++ {
+			client(&loginObs{}, p.User, string(unhex(p.Password)), p.RemotePw)
+		}
+		if p.Storm > 0 {
+			obs.control = &loginObs{}
+			simrt.Record("control-login", "", "", 0)
+			client(obs.control, p.User, string(unhex(p.Password)), p.RemotePw)
+		}
 		if tw != nil {
 			simrt.Join(tw)
 		}
@@ -566,7 +602,7 @@ func (c08) NRuns(tier string) int {
 	return c08EditCount()*3 + 600
 }
 func (c08) Rule() string {
-	return "login scripts derived from the valid plain and encrypted reply scripts: EVERY single edit (delete / duplicate / swap-adjacent each package; each field set to each alternative: ack status, message id, parameter count and types, cipher, key empty/garbage/trailing/PKIX/too small, capability masks zero, DONE status bits; reply stops after each package; no reply at all), each classified by construction as MUST-SUCCEED / MUST-FAIL / EITHER, x packetisations x key sizes 1024/1536/2048 x nonce lengths x 0..3 remote servers (quick: 3 variants per edit, thorough: 60), plus seeded scripts with benign decorations (invisible ENVCHANGE/EED-info packages) and 2..4 edits; non-trivial = an edit or decoration was applied; distinct = distinct (flow, edit, key size, remote count)"
+	return "login scripts derived from the valid plain and encrypted reply scripts: EVERY single edit (delete / duplicate / swap-adjacent each package; each field set to each alternative: ack status, message id, parameter count and types, cipher, key empty/garbage/trailing/PKIX/too small, capability masks zero, DONE status bits; reply stops after each package; no reply at all), each classified by construction as MUST-SUCCEED / MUST-FAIL / EITHER, x packetisations x key sizes 1024/1536/2048 x nonce lengths x 0..3 remote servers (quick: 3 variants per edit, thorough: 60), one variant of every edit (and 12% of the others) repeats the login 5..8 times and then make a control login against the valid script (must succeed); plus seeded scripts with benign decorations (invisible ENVCHANGE/EED-info packages) and 2..4 edits; non-trivial = an edit or decoration was applied; distinct = distinct (flow, edit, key size, remote count)"
 }
 func (c08) Components() map[string]string {
 	return map[string]string{"tds (Channel.Login, LoginConfig, rsaEncrypt, capability negotiation, NextPackageUntil)": "real (rewritten)", "crypto/rand": "stub: simrt seeded stream", "server": "stub: two-phase scripted login peer", "clock/contexts": "simulated (30 s login deadline costs no wall time)"}
@@ -603,6 +639,9 @@ func (c08) Gen(r *Rand, idx int, tier string) interface{} {
 		}
 		if strings.Contains(ed.desc, "key small") {
 			p.NonceLen = 40 // a 512-bit key cannot carry a 40-byte nonce plus a password
+		}
+		if idx%variants == 1 || r.Pct(12) {
+			p.Storm = 5 + r.Intn(4)
 		}
 		return p
 	}
@@ -657,6 +696,9 @@ func (c08) Shrink(plan interface{}) []interface{} {
 	}
 	if p.Remote > 0 {
 		mod(func(q *loginPlan) { q.Remote, q.RemoteN, q.RemotePw = 0, nil, nil })
+	}
+	if p.Storm > 1 {
+		mod(func(q *loginPlan) { q.Storm-- })
 	}
 	return out
 }
@@ -723,6 +765,14 @@ func (c08) Run(plan interface{}, schedSeed uint64, replay []simrt.Choice, lenien
 		}
 		if !obs.closeOK {
 			v.Violate("close", "channel cannot be closed after login", "%s: Close did not return", where)
+		}
+		if c := obs.control; c != nil {
+			v.Probe("storm-then-control-login")
+			if c.setupErr != "" || c.cfgErr != "" {
+				v.Machinery = "control login: setup failed: " + c.setupErr + c.cfgErr
+			} else if c.loginErr != nil || c.returnedAt > c.deadline {
+				v.Violate("control-login", "valid login fails after earlier logins in the same process", "%s: after %d such logins a login against a server answering with the valid script returned %v (t=%v, deadline %v)", where, p.Storm, c.loginErr, c.returnedAt, c.deadline)
+			}
 		}
 	}
 	v.Probe("class:" + p.Class)
@@ -853,6 +903,7 @@ func (c09) Gen(r *Rand, idx int, tier string) interface{} {
 	if encrypted && r.Pct(25) {
 		// a second login runs concurrently on its own connection with its own secrets
 		p.Twin = true
+		p.TwinAltKey = r.Bool()
 		p.TwinPassword = hexOf(marker(pwLen()))
 		for i := 0; i < p.Remote; i++ {
 			p.TwinRemotePw = append(p.TwinRemotePw, hexOf(marker(pwLen())))
@@ -1132,6 +1183,7 @@ func (c09) Run(plan interface{}, schedSeed uint64, replay []simrt.Choice, lenien
 		return v, out
 	}
 	judge := func(obs *loginObs, passwordHex string, remotePwHex []string, user string) {
+		isTwin := strings.HasPrefix(user, "twin_")
 		pw := unhex(passwordHex)
 		var secrets [][]byte
 		secrets = append(secrets, pw)
@@ -1236,7 +1288,13 @@ func (c09) Run(plan interface{}, schedSeed uint64, replay []simrt.Choice, lenien
 				v.Violate("unexplained-bytes", "second login message not explained", "%s: %v", where, err)
 				return
 			}
-			_, priv := p.keyPEM()
+			kp := p
+			if isTwin && p.TwinAltKey {
+				q := *p
+				q.altKey = true
+				kp = &q
+			}
+			_, priv := kp.keyPEM()
 			nonce := p.nonce()
 			// expected structure: MSG LOGPWD3(31), PARAMFMT(LONGBINARY), PARAMS; MSG REMPWD3(32), PARAMFMT(VARCHAR,LONGBINARY)*, PARAMS; MSG SYMKEY(34), PARAMFMT(LONGBINARY), PARAMS
 			var cts [][]byte
